@@ -140,6 +140,7 @@ func verifUFInt(name string, lo, hi int64, args ...interface{}) int64 { return l
 func verifSetField(ptr interface{}, field string, v interface{})   {}
 func verifGetField(ptr interface{}, field string) interface{}      { return nil }
 func verifFieldPtr(ptr interface{}, field string) interface{}      { return nil }
+func verifInitMaps(ptr interface{})                                 {}
 func verifRaceScope(ptr interface{}, label string)                 {}
 func verifParseIP(s string) []byte                                 { return nil }
 func verifParseCIDR(s string) (ip, mask []byte, ok bool)           { return nil, nil, false }
